@@ -20,15 +20,15 @@ def _ext(flags: list[typing.Any], vals: list[typing.Any]) -> dict[str, typing.An
     quick=[{"ct": ct, "flavour": fl} for ct in CONN_TYPES + ("h11-interim", "h2-small-window") for fl in ("sync", "async")],
     thorough=[{"ct": ct, "flavour": fl, "uds": u} for ct in CONN_TYPES + ("h11-interim", "h2-small-window") for fl in ("sync", "async") for u in (False, True)
               if not (u and ct not in ("h11", "h11tls", "h2", "h2prior"))],
-    example=dict(tc=1, tr=2, tw=3, tp=4, hc=True, hr=True, hw=True, hp=True),
-    require=("connect-op", "read-op", "write-op"),
-    timeout={"quick": 120, "thorough": 300},
-    symbolic="the four time-out values as unbounded integers, pairwise different, each optionally absent (None)",
+    example=dict(tc=1, tr=2, tw=3, tp=4, hc=True, hr=True, hw=True, hp=True, sni=True),
+    require=("connect-op", "read-op", "write-op", "with-sni_hostname"),
+    timeout={"quick": 200, "thorough": 400},
+    symbolic="the four time-out values as unbounded integers, pairwise different, each optionally absent (None); whether the request also carries another extension (sni_hostname) next to its time-outs",
     bounds="one POST request with a body per run; 8 connection types; sync and async; values unbounded",
     outside="float time-outs (modelled as integers: httpcore only passes them through); HTTP/2 flow-control waits",
     stubs=("simulated backend records the timeout argument of every connect/start_tls/read/write",),
 )
-def passthrough(tc: int, tr: int, tw: int, tp: int, hc: bool, hr: bool, hw: bool, hp: bool) -> None:
+def passthrough(tc: int, tr: int, tw: int, tp: int, hc: bool, hr: bool, hw: bool, hp: bool, sni: bool) -> None:
     """
     pre: tc >= 0 and tr >= 0 and tw >= 0 and tp >= 0
     pre: tc != tr and tc != tw and tc != tp and tr != tw and tr != tp and tw != tp
@@ -66,7 +66,11 @@ def passthrough(tc: int, tr: int, tw: int, tp: int, hc: bool, hr: bool, hw: bool
         P.cover("flow-control-wait")
     else:
         su = Setup(ct, is_async, **kw)
-    o = su.api.request(su.pool, "POST", su.url("t"), content=body, extensions={"timeout": t})
+    ext: dict[str, typing.Any] = {"timeout": t}
+    if sni:
+        ext["sni_hostname"] = "front.test"
+        P.cover("with-sni_hostname")
+    o = su.api.request(su.pool, "POST", su.url("t"), content=body, extensions=ext)
     if not P.check(o.ok, "request-ok", lambda: f"request failed {o.kind()}"):
         return
     all_set = hc and hr and hw and hp
